@@ -289,6 +289,7 @@ func checkC13(res *Result) {
 	res.Count("generated type packages", len(S.Types), 60)
 
 	pe := &predEval{S: S, memo: map[*ast.FuncDecl]*predResult{}}
+	undecidedRel := map[string]bool{}              // kind|A whose denotation could not be read (reported once, not again per pair)
 	rel := map[string]map[string]map[string]bool{} // kind -> A -> set
 	for _, k := range predKinds {
 		rel[k] = map[string]map[string]bool{}
@@ -343,6 +344,7 @@ func checkC13(res *Result) {
 			}
 			if r.problem != "" {
 				res.undecided(ruleOf[k], g.Name, S.pos(fd), k+" of "+g.Name+" has a computable denotation", r.problem)
+				undecidedRel[k+"|"+g.Name] = true
 				continue
 			}
 			rel[k][g.Name] = r.names
@@ -429,7 +431,13 @@ func checkC13(res *Result) {
 	names := O.TypeNames()
 	for _, a := range names {
 		var bad []string
+		und := func(k, t string) bool { return undecidedRel[k+"|"+t] }
 		for _, b := range names {
+			// a relation whose denotation could not be read is reported where it was read, not
+			// once more for every pair it takes part in
+			if und(kExtends, a) || und(kExtendedBy, a) || und(kDisjoint, a) || und(kIsOr, a) || und(kExtendedBy, b) || und(kDisjoint, b) {
+				continue
+			}
 			if rel[kExtends][a][b] != rel[kExtendedBy][b][a] {
 				bad = append(bad, fmt.Sprintf("Extends(%s,%s)=%v but ExtendedBy(%s,%s)=%v", a, b, rel[kExtends][a][b], b, a, rel[kExtendedBy][b][a]))
 			}
